@@ -32,7 +32,7 @@ noncomputable section
 the non-negative exponent 1 + a5 -/
 theorem h_continuousOn_vac {p : SedovFuncs.P} (s : Set ℝ) (hs : ∀ v ∈ s, Mass.VacBases p v) (ha5 : 0 < p.a5 + 1) :
     ContinuousOn (SedovFuncs.L1.h_fun p) s := by
-  unfold SedovFuncs.L1.h_fun
+  rw [(funext (EPV.Bridge.Semi.SedovFuncs_L1_h_fun p) : SedovFuncs.L1.h_fun p = _)]
   refine (ContinuousOn.mul (ContinuousOn.rpow_const (by fun_prop) ?_) (ContinuousOn.rpow_const (by fun_prop) ?_)).mul
     (ContinuousOn.rpow_const (by fun_prop) ?_)
   · intro v hv; exact Or.inl (hs v hv).x1.ne'
@@ -99,14 +99,14 @@ theorem eval_vac {p : SedovFuncs.P} {γ ω : ℝ} (kn : ℕ) (h1 : 1 ≤ kn) (hC
   have hL' : ∀ v ∈ Ioo (v2 γ k ω) (vv k ω), SedovFuncs.L1.l_fun_dv p v < 0 :=
     fun v hv => Std.l_dv_neg hC (hint v hv) hd2 hd3neg.ne
   have hf' : ∀ v ∈ Ioo (v2 γ k ω) (vv k ω), f (SedovFuncs.L1.l_fun p v) = p.a_val * v * SedovFuncs.L1.l_fun p v := by
-    intro v hv; rw [hf v hv]; simp only [epv_leaf]
+    intro v hv; rw [hf v hv]; simp only [epv_semi_leaf]
   obtain ⟨⟨I1, E1⟩, ⟨I2, E2⟩⟩ := branch_anti Br hL' f g h hf' hg hh
   obtain ⟨N1, N2⟩ := Br.pos_anti hL' (fun v hv => Std.h_pos p v (hB v hv))
   rw [(Mass.at_v2 hC P hS0.dden.ne).1] at I1 E1 I2 E2
   -- the vacuum boundary lies in (0, 1)
   have hBvv := Mass.vacBases hC (hcl _ (right_mem_Icc.mpr Br.hab.le)).signs
   have hlvv_pos : 0 < SedovFuncs.L1.l_fun p (vv k ω) := by
-    simp only [epv_leaf]
+    simp only [epv_semi_leaf]
     exact mul_pos (mul_pos (Real.rpow_pos_of_pos hBvv.x1 _) (Real.rpow_pos_of_pos hBvv.x2 _)) (Real.rpow_pos_of_pos hBvv.x3 _)
   have hlvv_le : SedovFuncs.L1.l_fun p (vv k ω) ≤ 1 := by
     have hanti : AntitoneOn (SedovFuncs.L1.l_fun p) (Icc (v2 γ k ω) (vv k ω)) := by
